@@ -25,6 +25,10 @@ RULE = ('k in 1..4 operands with disjoint ids on the concatenation axis (plus a 
 TRUSTED = ['hand-written model coq/Model/Concat.v tied to biom/table.py:3516-3676 by this correspondence run',
            'harness.tables.Coder: id codes respect python string order (sorted() = sort by code)',
            'extraction (ExtrOcamlBasic only) + ocaml/driver_tail.ml, cross-checked against vm_compute on a sample']
+from . import regen_cat as _regen_cat
+# py2v_cat: regenerate coq/Gen/ConcatGen.v (Table.concat) from the source first
+regenerate = _regen_cat.hook(TRUSTED, ['concat'], 'coq/Model/Concat.v', 'coq/Proofs/GenBridgeConcatProofs.v',
+                             'coq/Gen/CatPrelude.v')
 ASSUMPTIONS = ['operands are coherent tables (C05) with 1..N x 1..M shape',
                'metadata None and the empty dict are the same observation of "no metadata for this id"',
                'the order of the other axis in the result is not promised by the property text (the model proves it is sorted)']
